@@ -75,17 +75,34 @@ func c10ParseStrict(s []byte) ([]c10Member, error) {
 		if size < 28 || size > len(b) {
 			return nil, fmt.Errorf("member at %d: BSIZE+1 = %d, %d bytes left", off, size, len(b))
 		}
-		body := b[18 : size-8]
-		cr := &c10ByteCounter{b: body}
-		payload, err := io.ReadAll(flate.NewReader(cr))
-		if err != nil {
-			return nil, fmt.Errorf("member at %d: inflate: %v", off, err)
-		}
-		if cr.n != len(body) {
-			return nil, fmt.Errorf("member at %d: deflate stream uses %d of %d bytes", off, cr.n, len(body))
-		}
-		if binary.LittleEndian.Uint32(b[size-8:]) != crc32.ChecksumIEEE(payload) || binary.LittleEndian.Uint32(b[size-4:]) != uint32(len(payload)) {
-			return nil, fmt.Errorf("member at %d: trailer mismatch", off)
+		// the block body: deflate data + trailer, optionally followed (compress/gzip reads multistream)
+		// by further gzip members with a plain ten-byte header, each with its own trailer
+		var payload []byte
+		rest := b[18:size]
+		for first := true; ; first = false {
+			if !first {
+				if len(rest) < 10 || rest[0] != 0x1f || rest[1] != 0x8b || rest[2] != 8 || rest[3] != 0 {
+					return nil, fmt.Errorf("member at %d: bytes after the trailer are not a plain gzip header", off)
+				}
+				rest = rest[10:]
+			}
+			cr := &c10ByteCounter{b: rest}
+			p, err := io.ReadAll(flate.NewReader(cr))
+			if err != nil {
+				return nil, fmt.Errorf("member at %d: inflate: %v", off, err)
+			}
+			if len(rest)-cr.n < 8 {
+				return nil, fmt.Errorf("member at %d: deflate stream uses %d of %d bytes, no room for the trailer", off, cr.n, len(rest))
+			}
+			tr := rest[cr.n:]
+			if binary.LittleEndian.Uint32(tr) != crc32.ChecksumIEEE(p) || binary.LittleEndian.Uint32(tr[4:]) != uint32(len(p)) {
+				return nil, fmt.Errorf("member at %d: trailer mismatch", off)
+			}
+			payload = append(payload, p...)
+			rest = tr[8:]
+			if len(rest) == 0 {
+				break
+			}
 		}
 		ms = append(ms, c10Member{start: off, size: size, payload: payload, marker: string(b[:size]) == c10Magic})
 		off += size
@@ -319,6 +336,52 @@ func c10WriteBam(r *Rand, nref, nrec, seqLen int) ([]byte, error) {
 		return nil, fmt.Errorf("bam.Writer panics: %s", o.panicVal)
 	}
 	return buf.Bytes(), err
+}
+
+// c10HandBlock frames one BGZF block by hand: the 18-byte BGZF header, then one gzip member body per
+// payload (deflate data + CRC-32 + ISIZE; from the second on preceded by a plain ten-byte gzip header),
+// BSIZE covering all of it.  bgzf.Writer never writes more than 0xff00 bytes into a block; a foreign
+// writer may.
+func c10HandBlock(payloads [][]byte, level int) ([]byte, error) {
+	var body bytes.Buffer
+	for i, p := range payloads {
+		if i > 0 {
+			body.Write([]byte{0x1f, 0x8b, 8, 0, 0, 0, 0, 0, 0, 0xff})
+		}
+		fw, err := flate.NewWriter(&body, level)
+		if err != nil {
+			return nil, err
+		}
+		if _, err = fw.Write(p); err != nil {
+			return nil, err
+		}
+		if err = fw.Close(); err != nil {
+			return nil, err
+		}
+		var tr [8]byte
+		binary.LittleEndian.PutUint32(tr[:], crc32.ChecksumIEEE(p))
+		binary.LittleEndian.PutUint32(tr[4:], uint32(len(p)))
+		body.Write(tr[:])
+	}
+	size := 18 + body.Len()
+	if size > 65536 {
+		return nil, fmt.Errorf("hand-framed block of %d bytes does not fit BSIZE", size)
+	}
+	hdr := []byte{0x1f, 0x8b, 8, 4, 0, 0, 0, 0, 0, 0xff, 6, 0, 'B', 'C', 2, 0, byte(size - 1), byte((size - 1) >> 8)}
+	return append(hdr, body.Bytes()...), nil
+}
+
+// c10Pattern: n compressible but not constant bytes
+func c10Pattern(r *Rand, n int) []byte {
+	unit := c10Text(r, 61)
+	b := make([]byte, n)
+	for i := range b {
+		b[i] = unit[i%len(unit)]
+		if i%4093 == 0 {
+			b[i] = byte('a' + i/4093%26)
+		}
+	}
+	return b
 }
 
 // c10Reblock re-writes the data of a stream through bgzf.Writer with block boundaries at the given
@@ -605,6 +668,14 @@ func c10JudgeTrunc(st *c10Stream, k, rd int, o c10Obs) (string, string) {
 	return "", ""
 }
 
+func c10PayloadSizes(st *c10Stream) string {
+	var p []string
+	for _, m := range st.members {
+		p = append(p, fmt.Sprint(len(m.payload)))
+	}
+	return strings.Join(p, "+")
+}
+
 func c10Where(st *c10Stream, k int) string {
 	for i, m := range st.members {
 		if k > m.start && k < m.start+m.size {
@@ -671,10 +742,11 @@ func (c *c10ByteCounter) ReadByte() (byte, error) {
 }
 
 type c10Inflated struct {
-	ok      bool
-	used    int
-	payload []byte
-	code    int
+	ok       bool
+	used     int
+	payload  []byte
+	code     int
+	produced int // bytes delivered before the failure
 }
 
 type c10Walker struct {
@@ -710,12 +782,12 @@ func (w *c10Walker) inflate(b []byte) c10Inflated {
 	case err == nil:
 		r = c10Inflated{ok: true, used: cr.n, payload: payload}
 	case err == io.ErrUnexpectedEOF:
-		r = c10Inflated{code: 2}
+		r = c10Inflated{code: 2, produced: len(payload)}
 	default:
 		if _, ok := err.(flate.CorruptInputError); ok {
-			r = c10Inflated{code: 1}
+			r = c10Inflated{code: 1, produced: len(payload)}
 		} else {
-			r = c10Inflated{code: 3}
+			r = c10Inflated{code: 3, produced: len(payload)}
 		}
 	}
 	if len(w.memo) > 200000 {
@@ -787,7 +859,7 @@ func (e c10Entry) text(tag string) string {
 	if e.res.ok {
 		return fmt.Sprintf("%s:%d:%d:o:%d:%s", tag, e.start, e.n, e.res.used, hexs(e.res.payload))
 	}
-	return fmt.Sprintf("%s:%d:%d:f:%d", tag, e.start, e.n, e.res.code)
+	return fmt.Sprintf("%s:%d:%d:f:%d:%d", tag, e.start, e.n, e.res.code, e.res.produced)
 }
 
 func c10Table(parts []string) string {
@@ -911,9 +983,32 @@ func c10Enumerate(c *ctx, st *c10Stream, valsAt func(pos int, role string) []int
 			}
 			in := c10Input{Kind: "trunc", Layer: st.layer, Name: st.name, Stream: hexRaw, Cut: k, Rd: rd, Chunk: c10Chunk(k)}
 			if k == n {
-				// the intact stream: must read back completely (sanity of the harness, not a C10 clause)
+				// the intact stream.  A conformant one (every block holds at most 64 KiB) must read back
+				// completely (sanity of the harness).  One with an oversize block (hand-framed, "edge-…") must
+				// fail or read back completely: a clean end with other data is "read as different valid data".
 				full := o.kind == "eof" && !o.hdrErr && (st.layer == "bam" && len(o.recs) == len(st.recs) || st.layer == "bgzf" && bytes.Equal(o.data, st.data) && o.hasEOF == "t")
-				if !full {
+				conformant := true
+				for _, m := range st.members {
+					if len(m.payload) > bgzf.MaxBlockSize {
+						conformant = false
+					}
+				}
+				if !conformant {
+					r.eval(fmt.Sprintf("%s/intact/%d", st.name, rd), true)
+					r.hist(fmt.Sprintf("intact.oversize-block.%s", map[bool]string{true: "clean-eof", false: "error"}[o.kind == "eof"]))
+				}
+				switch {
+				case full:
+				case o.bad != "":
+					r.fail(fmt.Sprintf("intact.%s.%s", st.layer, o.bad), o.what, in)
+				case o.kind == "eof" && !o.hdrErr && st.layer == "bgzf":
+					cls := "clean-eof-wrong-data"
+					if bytes.HasPrefix(st.data, o.data) {
+						cls = "clean-eof-data-lost"
+					}
+					r.fail("intact.bgzf."+cls, fmt.Sprintf("%s rd=%d: the intact stream (block payloads %s) reads as %d of %d data bytes, then a clean io.EOF",
+						st.name, rd, c10PayloadSizes(st), len(o.data), len(st.data)), in)
+				case conformant:
 					r.fail("intact."+st.layer+".does-not-read-back", "the intact stream does not read back: "+o.verdict(st.layer), in)
 				}
 				continue
@@ -1086,6 +1181,49 @@ func c10Streams(c *ctx, scale int, tag string) []*c10Stream {
 	return out
 }
 
+// c10EdgeStreams: hand-framed streams around the block capacity (bgzf.Writer never writes them): a block
+// holding 65535, 65536, 65537, 65538 bytes, followed by a small block and the marker; and blocks made of
+// two gzip members (compress/gzip reads the buffered member in multistream mode) holding 65536+1,
+// 65537+0 and 65535+1 bytes.  Every truncation, and sampled substitutions of the header and trailer
+// bytes of the big block.
+func c10EdgeStreams(c *ctx) []*c10Stream {
+	r := c.res
+	var out []*c10Stream
+	type spec struct {
+		name  string
+		parts []int
+	}
+	specs := []spec{{"edge-65535", []int{65535}}, {"edge-65536", []int{65536}}, {"edge-65537", []int{65537}}, {"edge-65538", []int{65538}},
+		{"edge-2gz-65536+1", []int{65536, 1}}, {"edge-2gz-65537+0", []int{65537, 0}}, {"edge-2gz-65535+1", []int{65535, 1}}}
+	for _, sp := range specs {
+		var ps [][]byte
+		for _, n := range sp.parts {
+			ps = append(ps, c10Pattern(c.rnd, n))
+		}
+		big, err := c10HandBlock(ps, gzip.DefaultCompression)
+		var raw []byte
+		if err == nil {
+			var small []byte
+			small, err = c10HandBlock([][]byte{[]byte("tail")}, gzip.DefaultCompression)
+			raw = append(append(append(raw, big...), small...), c10Magic...)
+		}
+		if err != nil {
+			r.note("stream %s not built: %v", sp.name, err)
+			continue
+		}
+		st, err := c10Describe(sp.name, "bgzf", raw)
+		if err != nil {
+			r.note("stream %s not usable: %v", sp.name, err)
+			r.fail("c10.intact."+sp.name, "the hand-framed stream does not parse: "+err.Error(), c10Input{Kind: "build", Name: sp.name})
+			continue
+		}
+		out = append(out, st)
+		r.hist(fmt.Sprintf("stream.edge.payload=%s", c10PayloadSizes(st)))
+		r.sample(map[string]interface{}{"stream": sp.name, "layer": "bgzf", "bytes": len(raw), "members": len(st.members), "block_payloads": c10PayloadSizes(st)})
+	}
+	return out
+}
+
 func checkC10(c *ctx) {
 	r := c.res
 	r.Exhaustive = true
@@ -1167,6 +1305,19 @@ func checkC10(c *ctx) {
 			c10Enumerate(c, &bg, vals)
 			r.note("%s (bgzf): enumerated in %.1fs", bg.name, time.Since(t0).Seconds())
 		}
+	}
+	for _, st := range c10EdgeStreams(c) {
+		smp := sampled(st, 2)
+		first := st.members[0]
+		vals := func(pos int, role string) []int {
+			if pos >= first.start+first.size || strings.HasSuffix(role, "deflate") {
+				return nil
+			}
+			return smp(pos, role)
+		}
+		t0 := time.Now()
+		c10Enumerate(c, st, vals)
+		r.note("%s (bgzf, hand-framed): %d bytes, block payloads %s: enumerated in %.1fs", st.name, len(st.raw), c10PayloadSizes(st), time.Since(t0).Seconds())
 	}
 	if c.thorough() {
 		c10BigBam(c)
